@@ -3,7 +3,8 @@
 use soroban_sdk::auth::{Context, CustomAccountInterface};
 use soroban_sdk::crypto::Hash;
 use soroban_sdk::{
-    contract, contracterror, contractimpl, Address, Bytes, BytesN, Env, String, Symbol, Val, Vec,
+    contract, contracterror, contractimpl, Address, Bytes, BytesN, Env, String, Symbol, TryFromVal,
+    Val, Vec,
 };
 
 #[contracterror]
@@ -63,13 +64,15 @@ pub mod caller {
 
     #[contractimpl]
     impl Caller {
-        /// Invokes `target.func(args)`; occurrences of the unit value `()` in `args` are
+        /// Invokes `target.func(args)`; occurrences of the symbol `__self__` in `args` are
         /// replaced by this contract's own address.
         pub fn relay(env: Env, target: Address, func: Symbol, args: Vec<Val>) -> Val {
             let me: Val = env.current_contract_address().to_val();
+            let marker = Symbol::new(&env, "__self__");
             let mut a = Vec::new(&env);
             for v in args.iter() {
-                if v.is_void() {
+                let is_marker = Symbol::try_from_val(&env, &v).map(|s| s == marker).unwrap_or(false);
+                if is_marker {
                     a.push_back(me);
                 } else {
                     a.push_back(v);
